@@ -400,8 +400,12 @@ def timedelta(s):
             seconds = val
         else:
             raise TypeError(f'bad part {part} in {s}')
-    return datetime.timedelta(weeks=weeks, days=days, hours=hours,
-                              minutes=minutes, seconds=seconds)
+    try:
+        return datetime.timedelta(weeks=weeks, days=days, hours=hours,
+                                  minutes=minutes, seconds=seconds)
+    except OverflowError as e:
+        # an infinite amount, or more than a timedelta can hold
+        raise ValueError(f'interval out of range in {s}: {e}')
 
 
 stock_datatypes = {
